@@ -256,5 +256,5 @@ def run(ctx, chk):
     r2_consumers(ctx, chk)
     r34_opacity(ctx, chk)
     r5_pruning_order(ctx, chk)
-    chk.require_instances("C13.1", 30)
-    chk.require_instances("C13.2", 15)
+    chk.require_instances("C13.1", 20)
+    chk.require_instances("C13.2", 10)
